@@ -57,10 +57,10 @@ P = {
          "TLC explores Durability.tla (1 writer, readers with live-index step and reader-pool step, rollover sub-steps) with ReaderNeverMisses/PublishedMonotone and emits every reachable pair of writer positions at a reader's two steps; each pair is forced on a real Database by parking the writer thread at hook points through a real rollover and the reader between its two lookups, for each read API; reads must contain everything acknowledged before they started and a later read must not lose anything; plus 4 writers / 4 readers racing over small segments.",
          "Windows between two hook points are covered by the stress part only; quick tier runs two of the six read APIs per schedule (rotating).", "5/C15", "h-store"),
  "C06": ("fault_enumeration", "IndexCrash.tla (per-file crash cut classes, required recovery) checked by TLC; classes expanded to byte-level truncations of the real index files of a sealed segment and reopened",
-         "IndexCrash.tla enumerates the 252 joint classes (each of the three index files empty / cut in magic, counts, MPHF, bloom, records / complete) with the required outcome; each class is expanded to concrete truncation lengths on a real data directory with sealed segments, the image is reopened with DatabaseBuilder::open and every acknowledged event is looked up by id, stream scan and partition scan. The as-is behaviour (no rebuild) is recorded as two known findings keyed by failure kind and cut class; any other failure (e.g. with complete files, or a different failure kind) is reported.",
+         "IndexCrash.tla enumerates the 252 joint classes (each of the three index files empty / cut in magic, counts, MPHF, bloom, records / complete) with the required outcome; each class is expanded to concrete truncation lengths on a real data directory with sealed segments (two buckets at different segment ids), the image is reopened with DatabaseBuilder::open and every acknowledged event is looked up by id, stream scan and partition scan. The as-is behaviour (no rebuild) is recorded as two known findings keyed by failure kind and cut class; any other failure (e.g. with complete files, or a different failure kind) is reported.",
          "The sealed segment's data file is complete and fsynced. Known findings: reopen blocked for header-level cuts, lookups failing for record-level cuts.", "5/C06", "h-store"),
  "C26": ("model_checking", "Breaker.tla (atomic-operation grain, free clock) model-checked by TLC; its interleavings replayed step by step on real threads parked at hook points in front of every atomic operation of WriteCircuitBreaker",
-         "TLC explores every interleaving of 2 threads x 2 operations (thorough: 3 threads) of the breaker's atomic operations and clock readings with NoUnderflow, OpensOnlyAfterThreshold, ProbesBoundedUnlessLateReset; one behaviour per distinct final state plus random walks are replayed on the real WriteCircuitBreaker (dev profile): real threads are released one hook-to-hook step at a time in the schedule's order with the model's clock, the next hook reached and every return value must match, a panic is a violation. The residual probe-bound race (separate atomics) is a recorded finding whose schedule is replayed on every run.",
+         "TLC explores every interleaving of 2 threads x 2 operations (thorough: 3 threads), and one thread x 6 operations (whole outage cycles), of the breaker's atomic operations and clock readings with NoUnderflow, OpensOnlyAfterThreshold, ProbesBoundedUnlessLateReset; one behaviour per distinct final state plus random walks are replayed on the real WriteCircuitBreaker (dev profile): real threads are released one hook-to-hook step at a time in the schedule's order with the model's clock, the next hook reached and every return value must match, a panic is a violation. The residual probe-bound race (separate atomics) is a recorded finding whose schedule is replayed on every run.",
          "Episode = from a successful Open->HalfOpen compare_exchange to the next one; recorded finding c26:probes:late-reset.", "5/C26", "h-cluster"),
  "C08": ("model_checking", "Watermark.tla (reports in any order, persistence steps, crash, restart) model-checked by TLC; behaviours replayed on a real BucketConfirmationManager + Database with crash images taken at hook points between the persistence steps",
          "TLC checks Monotone, Sound, Complete and RestartNoRegress for every target vector, delivery order with duplicates and stale lower counts, replication factors 1-3 and every crash point of the temp/remove/rename/rename sequence; stale-count histories from the exhaustive runs and random walks are replayed on the real manager (on-disk counts raised through Database::set_confirmations, update_confirmation, persist_bucket_state with directory snapshots at the hook points, fresh manager initialised on the snapshot) comparing the watermark after every step.",
